@@ -8,7 +8,8 @@ HOOKS = dict(
 
 NOTES = ("Each check: (A) theorems in coq/Properties/<ID>.v re-compiled with Print Assumptions, (B) Go harness runs the real code "
          "from /repo's working tree and the Coq model is evaluated on the same cases with vm_compute; the property oracle is "
-         "evaluated on the implementation's observations. See DESIGN.md.")
+         "evaluated on the implementation's observations. Facts regenerated from source (coq/Generated/*.v) are read from the source shape and, when a shape is "
+         "not recognised, determined by behavioural probes of the built code (facts_source in the evidence). See DESIGN.md section 9.")
 
 NOT_APPLICABLE = {}
 
